@@ -12,6 +12,7 @@ package main
 // exists nothing is repaired and the queries are byte for byte what they were.
 
 import (
+	"regexp"
 	"encoding/json"
 	"fmt"
 	"go/ast"
@@ -31,6 +32,7 @@ type funcNames struct {
 	Results []string    `json:"results,omitempty"`
 	Outer   []string    `json:"outer,omitempty"` // for a function literal's contract: the enclosing function's parameters (captured)
 	Sites   map[string][]string `json:"sites,omitempty"` // callee text with site-keyed clauses -> assignment target of each call, in source order
+	Loops   []string          `json:"loops,omitempty"` // per loop ordinal (outside function literals): what the loop ranges over / its condition
 	LoopSeq map[string]string `json:"-"` // current run: loop ordinal -> the slice the loop walks over (ranged expression, or x of `i < len(x)`)
 	LocalPos []int      `json:"-"` // declaration position of each local (current run only)
 	Callees [][2]string `json:"callees,omitempty"` // (callee text, type) of calls through an indexed function value, e.g. subs[i](...)
@@ -80,6 +82,9 @@ func namesOfDecl(p *packages.Package, d *ast.FuncDecl) funcNames {
 	// the element or index variable can be re-read over the ranged expression and the iteration ghost
 	roles := loopRoles(p, d.Body)
 	fn.LoopSeq = loopSeqOf[d.Body]
+	if pr := loopPrintOf[d.Body]; pr != nil {
+		fn.Loops = *pr
+	}
 	// boolean flags declared with a literal: the literal tells an inverted flag (allNull := true -> anyPrepared := false)
 	inits := map[*ast.Ident]string{}
 	boolLit := func(e ast.Expr) string {
@@ -262,10 +267,13 @@ func sitesOf(d *ast.FuncDecl, c *FuncContract, unren map[string]string) map[stri
 // loopRoles: the loop variables of the loops in body (function literals excluded), keyed by object, with the loop's
 // pre-order ordinal as the contracts count it.
 var loopSeqOf = map[ast.Node]map[string]string{}
+var loopPrintOf = map[ast.Node]*[]string{}
 
 func loopRoles(p *packages.Package, body ast.Node) map[types.Object]string {
 	seqs := map[string]string{}
 	loopSeqOf[body] = seqs
+	prints := &[]string{}
+	loopPrintOf[body] = prints
 	roles := map[types.Object]string{}
 	ord := 0
 	var walk func(n ast.Node)
@@ -276,6 +284,7 @@ func loopRoles(p *packages.Package, body ast.Node) map[types.Object]string {
 				return false
 			case *ast.RangeStmt:
 				ord++
+				*prints = append(*prints, "range "+exprStr(st.X))
 				if tv, ok := p.TypesInfo.Types[st.X]; ok {
 					if _, isSl := tv.Type.Underlying().(*types.Slice); isSl && !strings.Contains(exprStr(st.X), "…") {
 						seqs[fmt.Sprint(ord)] = exprStr(st.X)
@@ -302,6 +311,11 @@ func loopRoles(p *packages.Package, body ast.Node) map[types.Object]string {
 				}
 			case *ast.ForStmt:
 				ord++
+				if st.Cond != nil {
+					*prints = append(*prints, "for "+exprStr(st.Cond))
+				} else {
+					*prints = append(*prints, "for")
+				}
 				if be, ok := st.Cond.(*ast.BinaryExpr); ok && be.Op == token.LSS {
 					if c, ok := ast.Unparen(be.Y).(*ast.CallExpr); ok && len(c.Args) == 1 {
 						if fid, ok := c.Fun.(*ast.Ident); ok && fid.Name == "len" {
@@ -651,6 +665,23 @@ func renameStrings(xs []string, ren map[string]string) {
 }
 
 // unrenameObligation maps the callee texts and closure names inside an obligation name back to the recorded identifiers.
+var reLoopName = regexp.MustCompile(`(^|[/.])loop(\d+)\.`)
+
+func unpermLoops(name string, unperm map[int]int) string {
+	if len(unperm) == 0 {
+		return name
+	}
+	return reLoopName.ReplaceAllStringFunc(name, func(m string) string {
+		sub := reLoopName.FindStringSubmatch(m)
+		var n int
+		fmt.Sscanf(sub[2], "%d", &n)
+		if o, ok := unperm[n]; ok {
+			return fmt.Sprintf("%sloop%d.", sub[1], o)
+		}
+		return m
+	})
+}
+
 func unrenameObligation(name, key string, inv map[string]string, texts [][2]string) string {
 	for _, t := range texts {
 		name = strings.ReplaceAll(name, "."+t[0]+"#", "."+t[1]+"#")
@@ -659,7 +690,7 @@ func unrenameObligation(name, key string, inv map[string]string, texts [][2]stri
 	if rest == name {
 		return name
 	}
-	for _, pre := range []string{"callreq.", "after.", "call-cover.", "call.", "nopanic.callee.", "fresharg.", ""} {
+	for _, pre := range []string{"callreq.", "after.", "call-cover.", "call.", "nopanic.callee.", "fresharg.", "readonly.", ""} {
 		if strings.HasPrefix(rest, pre) {
 			return key + "/" + pre + renameText(rest[len(pre):], inv)
 		}
@@ -807,6 +838,42 @@ func (E *Engine) repairNames(pkgPath string, pc *PkgContracts) {
 				}
 			}
 		}
+		if base == key && len(rec.Loops) == len(cur.Loops) && len(rec.Loops) > 1 {
+			plain := map[string]string{}
+			for o, n := range ren {
+				if !strings.HasPrefix(o, "\x00") && !strings.HasPrefix(n, "(") && !strings.HasPrefix(n, "\x01") {
+					plain[o] = n
+				}
+			}
+			perm := map[int]int{}
+			used := map[int]bool{}
+			okPerm, moved := true, false
+			for n, fp := range rec.Loops {
+				want := renameText(fp, plain)
+				hit := -1
+				for m2, cf := range cur.Loops {
+					if cf == want && !used[m2] {
+						if hit >= 0 {
+							okPerm = false
+						}
+						hit = m2
+					}
+				}
+				if hit < 0 {
+					okPerm = false
+					break
+				}
+				used[hit] = true
+				perm[n+1] = hit + 1
+				if hit != n {
+					moved = true
+				}
+			}
+			if okPerm && moved {
+				applyLoopPerm(c, perm)
+				E.nameRepairs = append(E.nameRepairs, fmt.Sprintf("%s.%s: loop clauses follow the reordered loops %v", rel, key, perm))
+			}
+		}
 		if base == key && len(rec.Sites) > 0 {
 			if d := E.findDecl(p, base); d != nil {
 				plain := map[string]string{}
@@ -909,4 +976,71 @@ func cmdNames(args []string) {
 	m := E.collectNames()
 	writeJSON(filepath.Join(root, "ledger", "names.json"), m)
 	fmt.Printf("names: %d functions under contract recorded\n", len(m))
+}
+
+
+// applyLoopPerm renumbers the loop clauses of a contract (recorded ordinal -> current ordinal) when independent loops were
+// reordered; obligation names keep the recorded ordinals.
+func applyLoopPerm(c *FuncContract, perm map[int]int) {
+	reI := regexp.MustCompile(`\$i(\d+)`)
+	fix := func(t string) string {
+		return reI.ReplaceAllStringFunc(t, func(m string) string {
+			var n int
+			fmt.Sscanf(m, "$i%d", &n)
+			if v, ok := perm[n]; ok {
+				return fmt.Sprintf("$i%d", v)
+			}
+			return m
+		})
+	}
+	fixAll := func(cs []Clause) {
+		for i := range cs {
+			cs[i].Text = fix(cs[i].Text)
+		}
+	}
+	remap := func(m map[int][]Clause) map[int][]Clause {
+		if m == nil {
+			return nil
+		}
+		out := map[int][]Clause{}
+		for k, cs := range m {
+			fixAll(cs)
+			nk := k
+			if v, ok := perm[k]; ok {
+				nk = v
+			}
+			out[nk] = cs
+		}
+		return out
+	}
+	c.LoopInv = remap(c.LoopInv)
+	c.LoopRet = remap(c.LoopRet)
+	c.LoopBrk = remap(c.LoopBrk)
+	if c.LoopMod != nil {
+		out := map[int][]string{}
+		for k, v := range c.LoopMod {
+			nk := k
+			if w, ok := perm[k]; ok {
+				nk = w
+			}
+			out[nk] = v
+		}
+		c.LoopMod = out
+	}
+	fixAll(c.Requires)
+	fixAll(c.Ensures)
+	fixAll(c.Canary)
+	for _, cs := range c.CallReq {
+		fixAll(cs)
+	}
+	for _, cs := range c.After {
+		fixAll(cs)
+	}
+	for _, cs := range c.GhostCall {
+		fixAll(cs)
+	}
+	c.LoopUnperm = map[int]int{}
+	for o, n := range perm {
+		c.LoopUnperm[n] = o
+	}
 }
